@@ -707,7 +707,11 @@ func (p *Proc) checkFrame(st *State, n ast.Node) {
 		return
 	}
 	cls := p.contract.ByKind("assigns")
-	if len(cls) == 0 || len(p.contract.ByKind("noframe")) > 0 {
+	if len(cls) == 0 {
+		return
+	}
+	if len(p.contract.ByKind("noframe")) > 0 {
+		p.ctx.notes["frame (assigns clause) of "+p.fi.Name+" is assumed, not proved"] = true
 		return
 	}
 	allowed := map[string][]*Term{}
